@@ -907,7 +907,10 @@ class BaseRequest(MutableMapping[str | RequestKey[Any], Any], HeadersMixin):
         return
 
     def _cancel(self, exc: BaseException) -> None:
-        set_exception(self._payload, exc)
+        # A body that was received completely stays readable: nothing of it
+        # can be lost with the connection and nobody is waiting for more.
+        if not self._payload.is_eof():
+            set_exception(self._payload, exc)
 
     def _finish(self) -> None:
         if self._post is None or self.content_type != "multipart/form-data":
